@@ -1,15 +1,39 @@
 """C10 - quiet and verbosity gate every write path identically."""
-import itertools
+import itertools, os
+from hutil import S, unS, err
+import termemu
 
 MODEL = "C10"
+MODEL_ENTRY = "run_C10S"        # the driver's entry for C10 (Model/GatedSection.v): run_C10 and, next to it, the two-section sequences
 PROP_FILES = ["Props/C10.v"]
+W = 10                          # terminal width of the two-section sequences ("older content" takes two rows)
 RULE = ("exhaustive product: entry point (Output / SectionOutput / IO std+err / IO.section() std+err, every public writing "
         "method found by reflection) x formatter (forced ANSI, unforced ANSI on plain stream, Plain, Null, unforced ANSI on an "
         "ANSI-capable stream) x quiet x verbosity {0,1,2,4} x flags {None,0..9,-1,2^40+1,2^40+4}; non-trivial = a text-writing "
-        "entry point with flags not None/0; distinct by the whole tuple")
-THEOREMS = ["gate_level", "gate_iff", "gate_monotone", "quiet_silent"]
+        "entry point with flags not None/0; distinct by the whole tuple.  Two-section sequences (kind later): two sections on one "
+        "stream at width 10 (forced ANSI / ANSI stream / plain), the newer one optionally written to first, then both given quiet x "
+        "verbosity, then newer.write|write_line|overwrite|clear|clear(1) with every flags value (refused or not), then the older one "
+        "re-opened and older.write|write_line|overwrite|clear; the model (Model/GatedSection.v) computes the bytes of each of the "
+        "two phases, every section's content and row count and the screen; compared with the implementation byte for byte.  Random "
+        "gated sequences (4000 quick / 40000 thorough): 1-3 sections, 3-14 calls out of flagged write / write_line of marked texts "
+        "(plain, wrapped, tagged, two lines, empty), overwrite, clear / clear(1) / clear(2), indent, set_quiet, set_verbosity; the "
+        "stream is observed after every call and compared call by call; the oracle decides allowed / refused from quiet, verbosity "
+        "and flags alone and asks: no byte from a refused call, no mark of a refused text anywhere in the stream, and (decorated, no "
+        "refused clear / overwrite) screen = stacked contents; non-trivial = at least one refused call")
+THEOREMS = ["gate_level", "gate_iff", "gate_monotone", "quiet_silent", "refused_call_is_invisible",
+            "code_is_ideal_unless_clear_refused", "refused_text_never_appears", "gated_run_is_section_run",
+            "ideal_run_is_section_run", "code_run_is_ideal_run",
+            "refused_arguments_do_not_matter", "gated_screen_is_stack", "groups_are_one_run"]
 TRUSTED = ["which gate calls guard each method body (Model/Gate.v path) is a transcription, checked by this exhaustive tie"]
-ASSUMPTIONS = ["verbosity is one of NORMAL/VERBOSE/VERY_VERBOSE/DEBUG (set_verbosity enforces it)"]
+ASSUMPTIONS = ["verbosity is one of NORMAL/VERBOSE/VERY_VERBOSE/DEBUG (set_verbosity enforces it)",
+               "refused_text_never_appears / gated_screen_is_stack: no clear / overwrite of a DECORATED section is refused in the "
+               "sequence (leakfree; the code cuts the record of a quiet section on clear - finding); gated_screen_is_stack: the "
+               "texts of the ALLOWED writes are good markup (C15's class), the refused ones may be anything"]
+# finding (reported, /repo unchanged): SectionOutput.clear() / overwrite() of a quiet decorated section emit nothing but cut the
+# recorded content.  The model follows the code (Model/GatedSection.v clear_refused), the tie checks that; the oracle's claim
+# "a refused call leaves no trace" is not made for these calls while this is True.  Set it to False once the code asks the gate
+# first (and make GatedSection.gstep the ideal step).
+CLEAR_LEAK_KNOWN = True
 
 METHS = ["write", "write_line", "write_raw", "write_line_raw", "overwrite", "clear"]
 IO_METHS = {"write": (0, 0), "write_line": (0, 1), "write_raw": (0, 2), "write_line_raw": (0, 3),
@@ -42,9 +66,25 @@ def gen(rng, tier, info):
                         for m2 in ("write", "write_line", "overwrite", "clear"):
                             cases.append({"later": 1, "fmt": fmt, "q": q, "v": v, "f": f, "m1": m1, "m2": m2})
                             n_later += 1
+    # the newer section HAS content when it is silenced (pre): clear / clear(1) / overwrite have something to act on, a refused
+    # write stands next to content that is printed again
+    for fmt in (0, 4, 2):
+        for q in (0, 1):
+            for v in VERBS:
+                for m1 in ("write", "write_line", "overwrite", "clear", "clear1"):
+                    for f in (FLAGS if m1 in ("write", "write_line") else [None]):
+                        for m2 in ("write", "write_line", "overwrite", "clear"):
+                            cases.append({"later": 1, "pre": 1, "fmt": fmt, "q": q, "v": v, "f": f, "m1": m1, "m2": m2})
+                            n_later += 1
+    # random gated sequences: 1-3 sections created on the way, flagged writes of marked texts (plain, wrapped, tagged, two
+    # lines, empty), overwrite, clear / clear(1) / clear(2), indent, set_quiet, set_verbosity; the stream is looked at after
+    # EVERY call
+    nseq = {"quick": 4000, "thorough": 40000, "search": 1000}[tier]
+    for _ in range(nseq):
+        cases.append({"later": 1, "fmt": rng.choice((0, 0, 4, 2)), "ops": seq_ops(rng)})
     info["exhaustive"] = True
     info["distribution"] = {"entry_points": len(ENTRY), "formatters": FMTS, "flags": len(FLAGS), "cases": len(cases),
-                            "two_section_sequences": n_later}
+                            "two_section_sequences": n_later, "random_gated_sequences": nseq}
     return cases
 
 
@@ -60,8 +100,121 @@ def is_ansi(case):
     return case["fmt"] in (0, 4)
 
 
+def sty(tag=None, fg=None, bg=None, attrs=0):
+    return {"tag": tag, "fg": fg, "bg": bg, "attrs": attrs}
+
+
+def default_set():
+    """clikit's DefaultStyleSet (attribute bits: bold italic dark underlined blinking inverse hidden), as in props/C15.py"""
+    return [sty("info", "green"), sty("comment", "cyan"), sty("question", "blue"), sty("error", "red", None, 1), sty("b", None, None, 1),
+            sty("u", None, None, 8), sty("c1", "cyan"), sty("c2", "yellow")]
+
+
+def w_style(st):
+    o = lambda v: [] if v is None else [S(v)]
+    return [o(st["tag"]), o(st["fg"]), o(st["bg"])] + [st["attrs"] >> i & 1 for i in range(7)]
+
+
+T_OLDER, T_FIRST, T_MARK, T_LATER = "older content", "<info>first</info>", "MARK-REFUSED", "later <b>text</b>"
+
+
+SEQ_TEXTS = ["a", "b" * 6, "c" * 11, "<info>in</info>fo", "x\ny", "", "<b>" + "w" * 9 + "</b>", "<comment>k</comment>\n\nz"]
+
+
+def seq_ops(rng):
+    ops, n, k = [[0]], 1, 0
+    for _ in range(rng.randint(3, 14)):
+        r = rng.random()
+        i = rng.randrange(n)
+        if r < 0.08 and n < 3:
+            ops.append([0])
+            n += 1
+        elif r < 0.50:
+            k += 1
+            # every written text starts with its own mark: a refused one can be looked for in the whole stream
+            ops.append([1, i, "#%02d" % k + rng.choice(SEQ_TEXTS), rng.choice(FLAGS), rng.randint(0, 1)])
+        elif r < 0.60:
+            k += 1
+            ops.append([2, i, "#%02d" % k + rng.choice(SEQ_TEXTS)])
+        elif r < 0.72:
+            ops.append([3, i, rng.choice((None, None, 1, 2))])
+        elif r < 0.77:
+            ops.append([4, i, rng.choice((0, 2, 3))])
+        elif r < 0.88:
+            ops.append([5, i, rng.randint(0, 1)])
+        else:
+            ops.append([6, i, rng.choice(VERBS)])
+    return ops
+
+
+def seq_walk(case):
+    """per call: (allowed?, refused clear/overwrite?) - from quiet / verbosity / flags alone, independent of the model"""
+    gates, out = [], []
+    for o in case["ops"]:
+        ok, clr = True, False
+        if o[0] == 0:
+            gates.append([0, 0])
+        elif o[0] in (1, 2, 3):
+            q, v = gates[o[1]]
+            ok = (not q) and v >= lowest(o[3] if o[0] == 1 else None)
+            clr = o[0] in (2, 3) and not ok
+        elif o[0] == 5:
+            gates[o[1]][0] = o[2]
+        elif o[0] == 6:
+            gates[o[1]][1] = o[2]
+        out.append((ok, clr))
+    return out
+
+
+def later_groups(case):
+    """the calls of a two-section sequence, in two groups (the stream is looked at after each).  One description for both sides:
+    [0] section(); [1,i,text,flags,nl] write/write_line; [2,i,text] overwrite; [3,i,n] clear; [4,i,n] indent; [5,i,q] set_quiet;
+    [6,i,v] set_verbosity"""
+    if "ops" in case:
+        return [[o] for o in case["ops"]], None
+    q, v, m1, m2 = case["q"], case["v"], case["m1"], case["m2"]
+    g1 = [[0], [0], [1, 0, T_OLDER, None, 1]]
+    if case.get("pre"):
+        g1.append([1, 1, T_FIRST, None, 1])                # written while the newer section is still open
+    g1 += [[5, 0, q], [6, 0, v], [5, 1, q], [6, 1, v]]
+    f = case["f"]
+    if m1 == "overwrite":
+        if not case.get("pre"):
+            g1.append([1, 1, T_FIRST, None, 1])            # something to overwrite (unflagged; refused when quiet)
+        g1.append([2, 1, T_MARK])                          # overwrite takes no flags: the gate is quiet / NORMAL
+        f = None
+    elif m1 in ("clear", "clear1"):
+        g1.append([3, 1, None if m1 == "clear" else 1])
+        f = None
+    else:
+        g1.append([1, 1, T_MARK, f, 1 if m1 == "write_line" else 0])
+    # the older section is written to with everything allowed
+    g2 = [[5, 0, 0], [6, 0, 4]]
+    if m2 == "clear":
+        g2.append([3, 0, None])
+    elif m2 == "overwrite":
+        g2.append([2, 0, T_LATER])
+    else:
+        g2.append([1, 0, T_LATER, None, 1 if m2 == "write_line" else 0])
+    return [g1, g2], f
+
+
+def w_op(o):
+    if o[0] == 1:
+        return [1, o[1], S(o[2]), [] if o[3] is None else [o[3]], o[4]]
+    if o[0] == 2:
+        return [2, o[1], S(o[2])]
+    if o[0] == 3:
+        return [3, o[1], [] if o[2] is None else [o[2]]]
+    return list(o)
+
+
 def wire(case):
-    if "reflect" in case or "later" in case:
+    if "later" in case:
+        groups, _ = later_groups(case)
+        return [98, 1 if is_ansi(case) else 0, 1 if case["fmt"] == 0 else 0, W, [w_style(x) for x in default_set()],
+                [[w_op(o) for o in g] for g in groups]]
+    if "reflect" in case:
         return [99]
     if "consts" in case:
         return [99]
@@ -70,10 +223,24 @@ def wire(case):
 
 
 def describe(case):
+    if "ops" in case:
+        def d(o):
+            if o[0] == 0:
+                return "section()"
+            if o[0] == 1:
+                return "s%d.%s(%r%s)" % (o[1], "write_line" if o[4] else "write", o[2], "" if o[3] is None else ", %d" % o[3])
+            if o[0] == 2:
+                return "s%d.overwrite(%r)" % (o[1], o[2])
+            if o[0] == 3:
+                return "s%d.clear(%s)" % (o[1], "" if o[2] is None else o[2])
+            return "s%d.%s(%d)" % (o[1], {4: "indent", 5: "set_quiet", 6: "set_verbosity"}[o[0]], o[2])
+        fn = ["AnsiFormatter(forced)", "", "PlainFormatter", "", "AnsiFormatter on ANSI stream"][case["fmt"]]
+        return "sections on one output (%s, width %d): " % (fn, W) + "; ".join(d(o) for o in case["ops"])
     if "later" in case:
         fn = ["AnsiFormatter(forced)", "AnsiFormatter on plain stream", "PlainFormatter", "NullFormatter", "AnsiFormatter on ANSI stream"][case["fmt"]]
-        return ("two sections on one output (%s), quiet=%s verbosity=%s: newer.%s('MARK-REFUSED', flags=%r), then older.%s(...) with everything "
-                "allowed" % (fn, bool(case["q"]), case["v"], case["m1"], case["f"], case["m2"]))
+        return ("two sections on one output (%s, width %d)%s, quiet=%s verbosity=%s: newer.%s(%s), then older.%s(...) with everything "
+                "allowed" % (fn, W, ", the newer one written to first" if case.get("pre") else "", bool(case["q"]), case["v"],
+                             case["m1"], "" if case["m1"].startswith("clear") else "'MARK-REFUSED', flags=%r" % (case["f"],), case["m2"]))
     if "t" not in case:
         return str(case)
     tn = ["Output", "SectionOutput", "IO", "IO.section()"][case["t"]]
@@ -183,28 +350,33 @@ NONWRITING = ("format", "remove_format")
 
 
 def _later(case):
+    os.environ["COLUMNS"] = str(W)
     io, so, se = _mk(case)
-    older, newer = io.output.section(), io.output.section()
-    older.write_line("older content")
-    for o in (older, newer):
-        o.set_quiet(bool(case["q"]))
-        o.set_verbosity(case["v"])
-    m1 = getattr(newer, case["m1"])
-    if case["m1"] == "overwrite":
-        newer.write_line("first")          # something to overwrite (unflagged)
-        # overwrite takes no flags: the gate is quiet / NORMAL
-        m1("MARK-REFUSED")
-        f = None
-    else:
-        f = case["f"]
-        m1("MARK-REFUSED") if f is None else m1("MARK-REFUSED", f)
-    mid = so.fetch()
-    # the older section is written to with everything allowed
-    older.set_quiet(False)
-    older.set_verbosity(4)
-    m2 = getattr(older, case["m2"])
-    m2() if case["m2"] == "clear" else m2("later text")
-    return [mid, so.fetch()[len(mid):], f]
+    groups, f = later_groups(case)
+    secs, seen, done = [], [], 0
+    for g in groups:
+        for o in g:
+            if o[0] == 0:
+                secs.append(io.output.section())
+            elif o[0] == 1:
+                meth = secs[o[1]].write_line if o[4] else secs[o[1]].write
+                meth(o[2]) if o[3] is None else meth(o[2], o[3])
+            elif o[0] == 2:
+                secs[o[1]].overwrite(o[2])
+            elif o[0] == 3:
+                secs[o[1]].clear() if o[2] is None else secs[o[1]].clear(o[2])
+            elif o[0] == 4:
+                secs[o[1]].indent(o[2])
+            elif o[0] == 5:
+                secs[o[1]].set_quiet(bool(o[2]))
+            else:
+                secs[o[1]].set_verbosity(o[2])
+        data = so.fetch()
+        seen.append(data[done:])
+        done = len(data)
+    state = [[[S(l) for l in s.content.split("\n")[:-1]] if s.content else [], s.lines, s._indent, 1 if s.is_quiet() else 0,
+              s.verbosity] for s in secs]
+    return [seen, f, state]
 
 
 def run_impl(case):
@@ -212,7 +384,7 @@ def run_impl(case):
         try:
             return ["LATER"] + _later(case)
         except Exception as e:
-            return ["EXC", type(e).__name__, str(e)[:100]]
+            return ["EXC", type(e).__name__, str(e)[:100], err(e)]
     if "reflect" in case:
         return ["REFLECT", _reflect()]
     if "consts" in case:
@@ -234,9 +406,16 @@ def run_impl(case):
     return [1 if exists else 0, 1 if emitted else 0, 1 if got else 0]
 
 
+def _screen(datas):
+    t = termemu.Term(W)
+    t.feed("".join(datas))
+    return [[S(r) for r in t.screen()], t.r, t.c]
+
+
 def canon_model(case, obs):
     if "later" in case:
-        return [7]
+        # (0 emits-per-group sections terminal leakfree): the implementation side is brought to the same shape
+        return obs
     if "reflect" in case:
         return ["REFLECT", KNOWN]
     return obs
@@ -244,7 +423,17 @@ def canon_model(case, obs):
 
 def canon_impl(case, obs):
     if "later" in case:
-        return [7] if obs and obs[0] == "LATER" else obs
+        if obs and obs[0] == "LATER":
+            _, seen, _f, state = obs
+            if "ops" in case:
+                leakfree = not (is_ansi(case) and any(clr for _, clr in seq_walk(case)))
+                return [0, [termemu.tokens(x) for x in seen], state, _screen(seen), 1 if leakfree else 0]
+            mid, after = seen
+            # the class of refused_text_never_appears / gated_screen_is_stack (Model/GatedSection.v leakfree), decided here
+            # from the case alone: no clear / overwrite of a decorated section is refused
+            leakfree = not (is_ansi(case) and case["q"] and case["m1"] in ("overwrite", "clear", "clear1"))
+            return [0, [termemu.tokens(mid), termemu.tokens(after)], state, _screen([mid, after]), 1 if leakfree else 0]
+        return obs[3] if obs and obs[0] == "EXC" else obs
     if "reflect" in case:
         # sections of other IO classes (BufferedIO etc.) appear under their class names
         return ["REFLECT", sorted(x for x in obs[1])]
@@ -265,17 +454,73 @@ def lowest(f):
     return 0
 
 
+def screen_vs_stack(seen, state):
+    """decorated: the screen is the stack of the recorded contents (Props/C10.v gated_screen_is_stack), the row counts are theirs"""
+    from props.C15 import visible
+    stack = []
+    for cs, lines, _ind, _q, _v in state:
+        rows = []
+        for l in cs:
+            vis, _ = visible(unS(l))
+            rows += termemu.wrap_rows(vis, W)
+        if lines != len(rows):
+            return "row-count-disagrees-with-content"
+        stack += rows
+    screen, r, col = _screen(seen)
+    if [unS(x) for x in screen] != stack + [""] or r != len(stack) or col != 0:
+        return "screen-differs-from-stacked-contents"
+    return None
+
+
+def oracle_seq(case, seen, state):
+    walk = seq_walk(case)
+    whole = "".join(seen)
+    for o, (ok, clr), data in zip(case["ops"], walk, seen):
+        name = {0: "section", 1: "write", 2: "overwrite", 3: "clear", 4: "indent", 5: "set_quiet", 6: "set_verbosity"}[o[0]]
+        if not ok and data:
+            return "bytes-despite-gate:SectionOutput.%s" % name
+        if o[0] in (1, 2):
+            if not ok and o[2][:3] in whole:
+                return "refused-text-appears-later:SectionOutput.%s" % name
+            if ok and o[2][:3] not in data:
+                return "gate:SectionOutput.%s" % name
+        elif o[0] not in (3,) and data:
+            return "emits-without-path"
+    if not is_ansi(case):
+        return None
+    if any(clr for _, clr in walk) and CLEAR_LEAK_KNOWN:
+        return None            # a refused clear / overwrite of a decorated section: the finding
+    bad = screen_vs_stack(seen, state)
+    if bad == "screen-differs-from-stacked-contents" and not all(ok for ok, _ in walk):
+        return "refused-call-leaves-a-trace"
+    return bad
+
+
 def oracle(case, obs):
     if "later" in case:
         if obs[0] == "EXC":
             return "exception:" + obs[1]
-        _, mid, after, f = obs
+        _, seen, f, state = obs
+        if "ops" in case:
+            return oracle_seq(case, seen, state)
+        mid, after = seen
+        m1 = case["m1"]
         exp = (not case["q"]) and case["v"] >= lowest(f)
         if not exp and ("MARK-REFUSED" in mid or "MARK-REFUSED" in after):
-            return "refused-text-appears-later:SectionOutput.%s then %s" % (case["m1"], case["m2"])
-        if exp and "MARK-REFUSED" not in mid:
-            return "gate:SectionOutput.%s" % case["m1"]
-        return None
+            return "refused-text-appears-later:SectionOutput.%s then %s" % (m1, case["m2"])
+        if exp and not m1.startswith("clear") and "MARK-REFUSED" not in mid:
+            return "gate:SectionOutput.%s" % m1
+        if not is_ansi(case):
+            return None
+        # decorated: the screen is the stack of the recorded contents (Props/C10.v gated_screen_is_stack), the row counts
+        # are theirs - unless a clear / overwrite was refused while the section had content (finding, CLEAR_LEAK_KNOWN)
+        leak = case["q"] and case.get("pre") and m1 in ("overwrite", "clear", "clear1")
+        if leak and CLEAR_LEAK_KNOWN:
+            return None
+        bad = screen_vs_stack(seen, state)
+        if bad == "screen-differs-from-stacked-contents" and not exp:
+            return "refused-call-leaves-a-trace:SectionOutput.%s" % m1
+        return bad
     if "reflect" in case:
         unknown = [x for x in obs[1] if x not in KNOWN]
         if unknown:
@@ -299,8 +544,20 @@ def oracle(case, obs):
 
 
 def nontrivial_key(case, obs):
+    if "ops" in case:
+        return ["seq", case["fmt"], case["ops"]] if not all(ok for ok, _ in seq_walk(case)) else None
     if "later" in case:
-        return ["later"] + [case[k] for k in ("fmt", "q", "v", "f", "m1", "m2")] if case["f"] not in (None, 0) else None
+        if case["f"] not in (None, 0) or case.get("pre"):
+            return ["later", case.get("pre", 0)] + [case[k] for k in ("fmt", "q", "v", "f", "m1", "m2")]
+        return None
     if "t" in case and obs and obs[0] == 1 and case["f"] not in (None, 0):
         return [case[k] for k in ("t", "ion", "m", "fmt", "q", "v", "f", "via")]
     return None
+
+
+def shrink(case):
+    if "ops" in case:
+        ops = case["ops"]
+        for i in range(1, len(ops)):
+            if ops[i][0] != 0:
+                yield {"later": 1, "fmt": case["fmt"], "ops": ops[:i] + ops[i + 1:]}
